@@ -234,12 +234,12 @@ def queries(tier):
                         bound='symbolic float d (every finite real, +-inf; NaN skipped) assigned to defense %s of a G1 asset: '
                               'accepted iff 0 <= d <= 1, stored value equals d, a rejected assignment leaves the value unchanged' % dn))
     ps = [I('tp', 0, 3), I('ta', 0, 3), I('c0', 0, 2), I('c2', 0, 3), I('go', 0, 2)]
-    qs.append(Query(name='classes', body=body_classes, params=ps, split=['tp'], timeout=500,
+    qs.append(Query(name='classes', body=body_classes, params=ps, split=['tp', 'ta'], timeout=500,
                     witnesses=[({}, {'tp': 0, 'ta': 1, 'c0': 2, 'c2': 3, 'go': 1}), ({}, {'tp': 2, 'ta': 3, 'c0': 1, 'c2': 0, 'go': 0})],
                     bound='L_INH variants: TTC of defense dP (on abstract P) and dA over [Enabled, Disabled, none, Exponential], step s declared at P/G1 in '
                           '3 x 4 ways, G1 extending or overriding (->) the inherited defense dP with another status; every asset type, its inherited defenses and defaults, every association class incl. both Dup sub-entries'))
     ps = [I('k', 0, 4), I('l0', 0, 3), I('l1', 0, 2), I('r0', 0, 2), I('r1', 0, 2), I('r2', 0, 1), B('dup'), B('cross')]
-    qs.append(Query(name='assoc', body=body_assoc, params=ps, split=['k', 'dup'], timeout=500, pre=['not (dup and cross)', 'not cross or l1 == 2'],
+    qs.append(Query(name='assoc', body=body_assoc, params=ps, split=['k', 'dup', 'l0'], timeout=500, pre=['not (dup and cross)', 'not cross or l1 == 2'],
                     witnesses=[({}, {'k': 0, 'l0': 0, 'l1': 2, 'r0': 0, 'r1': 2, 'r2': 1, 'dup': True}),
                                ({}, {'k': 1, 'l0': 0, 'l1': 2, 'r0': 0, 'r1': 0, 'r2': 0, 'dup': False}),
                                ({}, {'k': 3, 'l0': 1, 'l1': 0, 'r0': 0, 'r1': 0, 'r2': 0, 'dup': False})],
